@@ -133,6 +133,38 @@ func reifyUnpackCase(r *Rng, t *tyNode, cfgData map[string]interface{}, pol int,
 		Tags: []string{"unpack", "res:" + res, "policy:" + policyOpts[pol].name}, Nontrivial: len(cfgData) > 0}, true
 }
 
+// namesOverlap: some struct of t has a field whose name is a dotted prefix of another field's name
+// (`n` next to `n.m`): whether that is a legal mixture depends on what the two fields hold
+func namesOverlap(t *tyNode) bool {
+	if t == nil {
+		return false
+	}
+	if t.Kind == "struct" {
+		var names []string
+		for _, f := range t.Fields {
+			n := strings.SplitN(f.CTag, ",", 2)[0]
+			if n == "" {
+				n = strings.ToLower(f.GoName)
+			}
+			names = append(names, n)
+		}
+		for i, a := range names {
+			for j, b := range names {
+				if i != j && strings.HasPrefix(b, a+".") {
+					return true
+				}
+			}
+		}
+		for _, f := range t.Fields {
+			if namesOverlap(f.T) {
+				return true
+			}
+		}
+		return false
+	}
+	return namesOverlap(t.Elem)
+}
+
 // toData renders a Go value as the plain data Merge would see (used for the round trip's config dump only through the API).
 func reifyRoundCase(r *Rng, t *tyNode) (Case, bool) {
 	v := randGoValue(r, t, 2)
@@ -151,7 +183,7 @@ func reifyRoundCase(r *Rng, t *tyNode) (Case, bool) {
 		uopts = append(uopts, ucfg.StructTag("alt"))
 	}
 	if p, pm := guard(func() { merr = cfg.Merge(src.Interface(), mopts...) }); p || merr != nil {
-		if e, ok := merr.(ucfg.Error); ok && !p && e.Reason() == ucfg.ErrDuplicateKey {
+		if e, ok := merr.(ucfg.Error); ok && !p && (e.Reason() == ucfg.ErrDuplicateKey || namesOverlap(t)) {
 			return Case{}, false // field names that overlap: no type the property speaks about
 		}
 		// a value of a supported type that can not even be merged does not round-trip
@@ -790,6 +822,8 @@ func genReify(g *Gen, mode string) {
 				t, cfgData, fix = emptiedLists(r)
 			} else if mode == "C04" && r.P(1, 12) {
 				t, cfgData, fix = bigBounds(r)
+			} else if mode == "C04" && r.P(1, 12) {
+				t, cfgData, fix = ifaceTagged(r)
 			}
 			dual := mode == "C04" && fix == nil && r.P(1, 5)
 			dualC := mode == "C13" && fix == nil && r.P(1, 5)
@@ -975,6 +1009,30 @@ func bigBounds(r *Rng) (*tyNode, map[string]interface{}, func(reflect.Value)) {
 		v.Field(1).SetUint(18446744073709551615)
 		v.Field(2).SetInt(0)
 		v.Field(3).SetInt(9223372036854775806)
+	}
+}
+
+// ifaceTagged: interface{} fields under validate tags: what the configuration puts into them is
+// validated like a value of any other field
+func ifaceTagged(r *Rng) (*tyNode, map[string]interface{}, func(reflect.Value)) {
+	it := func() *tyNode { return &tyNode{Kind: "iface"} }
+	t := &tyNode{Kind: "struct", Fields: []tyField{
+		{GoName: "X", CTag: "x", VTag: "nonzero", T: it()},
+		{GoName: "Y", CTag: "y", VTag: "min=5", T: it()},
+		{GoName: "Z", CTag: "z", VTag: "required", T: it()},
+		{GoName: "P", CTag: "p", VTag: "positive", T: it()}}}
+	cfg := map[string]interface{}{}
+	cfg["x"] = []interface{}{uint64(0), uint64(3), "", "s", 0.0, []interface{}{}, []interface{}{uint64(1)}}[r.Intn(7)]
+	cfg["y"] = []interface{}{uint64(1), uint64(5), uint64(9), int64(-2), 7.5}[r.Intn(5)]
+	cfg["z"] = []interface{}{"", "v", uint64(0), uint64(2), map[string]interface{}{}, map[string]interface{}{"k": true}}[r.Intn(6)]
+	cfg["p"] = []interface{}{int64(-1), uint64(0), uint64(4), -0.5, 2.5}[r.Intn(5)]
+	for _, k := range []string{"x", "y", "z", "p"} {
+		if r.P(1, 3) {
+			delete(cfg, k)
+		}
+	}
+	return t, cfg, func(v reflect.Value) {
+		v.Field(2).Set(reflect.ValueOf("pre")) // a required field that holds something already
 	}
 }
 
